@@ -6,6 +6,8 @@ about the L0 model functions that `step` executes; `s.w.profile` is universally
 quantified, so every statement covers debug and release builds.
 -/
 import Micromap.Proofs.MapApi
+import Micromap.Props.C11
+import Micromap.Props.C16
 
 namespace Micromap.Props.C03
 open Micromap
@@ -117,6 +119,46 @@ theorem insert_len_le_cap {s : St K V Q} {l : List (K × V)} (hr : Rep s.r l) (k
     rcases h with ⟨_, l', hrep, _⟩ | ⟨hs, _⟩
     · exact ⟨hrep.safe.1, hc⟩
     · rw [hs]; exact ⟨hr.safe.1, rfl⟩
+
+/-! ### the other safe insertion entry points (proved in `Props/C11.lean`, `Props/C16.lean`) -/
+
+/-- `entry(k).or_insert(d)` with an absent key on a full map: the overflow panic of both profiles,
+    container unchanged, the default and the key dropped once each. -/
+theorem entry_or_insert_full_absent (hE : E.Pure) {s : St K V Q} {l : List (K × V)} (hr : Rep s.r l)
+    (hb : Benign s.w) (k : K) (d : V) (hf : findKey E l (.key k) = none) (hfull : l.length = s.r.cap) :
+    ∃ c s', (entry E k >>= or_insert E d) s = .panic c s' ∧ s'.r = s.r ∧
+      OverflowPanic s c ∧ WRel s.w s'.w (dropVTr E d ++ [.dropK k]) :=
+  C11.entry_or_insert_full E hE hr hb k d hf hfull
+
+/-- `or_insert_with` / `or_insert_with_key` / `or_default` (tags 2, 3, 4): the closure runs once,
+    then the same clean rejection. -/
+theorem entry_or_insert_with_full_absent (hE : E.Pure) {s : St K V Q} {l : List (K × V)} (hr : Rep s.r l)
+    (hb : Benign s.w) (k : K) (tag : Nat) (mk : V) (hf : findKey E l (.key k) = none)
+    (hfull : l.length = s.r.cap) :
+    ∃ c s', (entry E k >>= or_insert_with E tag mk) s = .panic c s' ∧ s'.r = s.r ∧
+      OverflowPanic s c ∧ WRel s.w s'.w (.call tag :: (dropVTr E mk ++ [.dropK k])) :=
+  C11.entry_or_insert_with_full E hE hr hb k tag mk hf hfull
+
+/-- `collect` / `From<[_; N]>` / `Extend`: the first item whose key is new when the container is
+    full raises the overflow panic; the items before it are in (`foldInsert`), nothing after it is
+    pulled (`extend_overflow` states the exact trace). -/
+theorem extend_overflows_at_first_surplus (hE : E.Pure) (pulls : Bool) (xs : List (K × V)) {s : St K V Q}
+    {l0 : List (K × V)} (hr : Rep s.r l0) (hw : Benign s.w) {m : Nat}
+    (hov : FromIter.overflowAt E s.r.cap l0 xs = some m) :
+    ∃ c s', extendLoop E pulls xs s = .panic c s' ∧ OverflowPanic s c ∧
+      Rep s'.r (FromIter.foldInsert E l0 (xs.take m)) ∧ s'.r.cap = s.r.cap := by
+  obtain ⟨c, s', _, _, h1, h2, _, h4, h5, _⟩ := C16.extend_overflow E hE pulls xs hr hw hov
+  exact ⟨c, s', h1, h2, h4, h5⟩
+
+/-- `Set::insert` / `Set::replace` are `insert` / `insert_key_value` at `V = ()`. -/
+theorem set_insert_full_absent (F : Env K Unit Q) (hF : F.Pure) {s : St K Unit Q} {l : List (K × Unit)}
+    (hr : Rep s.r l) (hb : Benign s.w) (hfull : l.length = s.r.cap) (k : K)
+    (habs : findKey F l (.key k) = none) :
+    (∃ c s', insert F k () s = .panic c s' ∧ s'.r = s.r ∧ OverflowPanic s c) ∧
+    (∃ c s', insert_key_value F k () s = .panic c s' ∧ s'.r = s.r ∧ OverflowPanic s c) := by
+  obtain ⟨c, s', h1, h2, h3, _⟩ := insert_full_absent F hF hr hb hfull k () habs
+  obtain ⟨c2, s2, g1, g2, g3, _⟩ := insert_key_value_full_absent F hF hr hb hfull k () habs
+  exact ⟨⟨c, s', h1, h2, h3⟩, ⟨c2, s2, g1, g2, g3⟩⟩
 
 /-! Non-vacuity: a concrete full map with an absent key meets the hypotheses (tests, not proofs). -/
 
